@@ -217,4 +217,47 @@ def PyVal.asInteger : PyVal → Option Int
   | .bool b => some (if b then 1 else 0)
   | _ => Option.none
 
+/-! ### what may be handed to `imread` / `Image.from_file`
+
+Kinds of the `fp` argument and Python's `isinstance` against the type names that occur in the two dispatches (regenerated
+tuples: `fromFileBytesTypes`, `fromFilePassThroughTypes` of `from_file`; `readerFileObjectTypes`, `readerPathTypes` of
+`ImageFileReader.__init__`). -/
+
+inductive FpKind
+  | str            -- a path as str
+  | path           -- pathlib.Path
+  | purePath       -- pathlib.PurePath that is not a Path
+  | fsPath         -- any other object with __fspath__
+  | bytes          -- the content of the file
+  | dicomIO        -- an open pydicom DicomIO
+  | binaryIO       -- any other open binary file object (io.BytesIO, open(..., 'rb'))
+  deriving DecidableEq, Repr
+
+def FpKind.all : List FpKind := [.str, .path, .purePath, .fsPath, .bytes, .dicomIO, .binaryIO]
+
+/-- `isinstance(<object of kind k>, <type named t>)` -/
+def FpKind.isInstance (k : FpKind) (t : String) : Bool :=
+  match k with
+  | .str => t == "str"
+  | .path => t == "Path" || t == "PathLike" || t == "PurePath"
+  | .purePath => t == "PurePath" || t == "PathLike"
+  | .fsPath => t == "PathLike"
+  | .bytes => t == "bytes"
+  | .dicomIO => t == "DicomIO"
+  | .binaryIO => t == "BinaryIO"
+
+def FpKind.isInstanceAny (k : FpKind) (ts : List String) : Bool := ts.any k.isInstance
+
+/-- what `from_file` hands to the reader on the lazy branch: bytes and foreign file objects become a DicomIO -/
+def lazyHandedToReader (k : FpKind) : FpKind :=
+  if k.isInstanceAny fromFileBytesTypes then .dicomIO
+  else if !(k.isInstanceAny fromFilePassThroughTypes) then .dicomIO
+  else k
+
+/-- `ImageFileReader.__init__`: accepted as file object or as path, else TypeError -/
+def readerAccepts (k : FpKind) : Bool := k.isInstanceAny readerFileObjectTypes || k.isInstanceAny readerPathTypes
+
+/-- `imread(fp, lazy_frame_retrieval=True)` gets as far as a reader -/
+def lazyOpens (k : FpKind) : Bool := readerAccepts (lazyHandedToReader k)
+
 end HdVerif.FramePaths
